@@ -214,7 +214,21 @@ type pstate struct {
 	seq     int
 	locals  map[*ssa.Alloc]*Term
 	stored  map[string]int // address key -> number of stores so far on the path
+	elems   map[elemKey]*Term // elements of local array literals (copy-on-write, shared between forks)
 	tc      *TermCtx
+}
+
+type elemKey struct {
+	a *ssa.Alloc
+	k string
+}
+
+func (s *pstate) elemsCopy() map[elemKey]*Term {
+	n := map[elemKey]*Term{}
+	for k, v := range s.elems {
+		n[k] = v
+	}
+	return n
 }
 
 func (s *pstate) clone() *pstate {
@@ -231,6 +245,7 @@ func (s *pstate) clone() *pstate {
 		seq:     s.seq,
 		locals:  map[*ssa.Alloc]*Term{},
 		stored:  map[string]int{},
+		elems:   s.elems,
 	}
 	for k, v := range s.stored {
 		n.stored[k] = v
@@ -343,6 +358,7 @@ func (ex *executor) newTC(st *pstate) {
 		return st.locals[a]
 	}
 	tc.loadVer = func(k string) int { return st.stored[k] }
+	tc.elemVal = func(a *ssa.Alloc, k string) *Term { return st.elems[elemKey{a, k}] }
 	tc.inline = !ex.opts.NoInline
 	st.tc = tc
 }
@@ -419,6 +435,16 @@ func (ex *executor) run(st *pstate, b *ssa.BasicBlock, from *ssa.BasicBlock) {
 			if a, ok := in.Addr.(*ssa.Alloc); ok && !ex.escapd[a] {
 				st.locals[a] = val
 				continue
+			}
+			if ia, ok := in.Addr.(*ssa.IndexAddr); ok {
+				if a := literalArrayOf(ia.X); a != nil {
+					if k, isC := ia.Index.(*ssa.Const); isC && !ex.inLoop[b] {
+						// element of a local array literal: tracked like a local, no effect on outside memory
+						st.elems = st.elemsCopy()
+						st.elems[elemKey{a, tc.Of(k).Sym}] = val
+						continue
+					}
+				}
 			}
 			st.seq++
 			st.effects = append(st.effects, Effect{Seq: st.seq, Kind: "store", Instr: in, Addr: addr, Val: val, InLoop: ex.inLoop[b], Block: b, Fresh: rootIsAlloc(addr)})
